@@ -46,27 +46,47 @@ SMALL = [
 ]
 
 
-def _variants(text, rng):
-    """near-duplicate good text (different tree) and a syntactically broken variant"""
+NEAR_DUP_KINDS = ["digit", "linebreak", "case", "string-ws", "tail", "head"]
+
+
+def _near_dups(text, rng, kind):
+    """three good texts that differ minimally in the way `kind` says (but parse to different trees):
+    a cache key that normalises line breaks / case / white space, or looks only at a prefix or suffix
+    of the text, confuses them"""
     import re
-    nums = [m for m in re.finditer(r"(?<![\w.])\d+(?![\w.])", text)]
-    if nums:
-        m = rng.choice(nums)
-        dup = text[:m.start()] + str(int(m.group()) + 1 + rng.randrange(3)) + text[m.end():]
+    i = text.index(";") + 1          # after the first declaration / statement of the first class
+    if kind == "linebreak":
+        ins = ["\n  // note\n  Real extra__;", "\n  // note\r  Real extra__;", "\n  // note\r\n  Real extra__; Real extra2__;"]
+    elif kind == "case":
+        ins = ["\n  Real extra__;", "\n  Real EXTRA__;", "\n  Real Extra__;"]
+    elif kind == "string-ws":
+        ins = ['\n  Real extra__ "a b";', '\n  Real extra__ "a  b";', '\n  Real extra__ "a\tb";']
+    elif kind == "tail":
+        return [text + "model Z__\n  Real q = %d;\nend Z__;\n" % k for k in (1, 2, 3)]
+    elif kind == "head":
+        return ["model %s__\nend %s__;\n" % (k, k) + text for k in ("A", "B", "C")]
     else:
-        dup = text + "\nmodel Extra__ Real q; end Extra__;\n"
+        nums = [m for m in re.finditer(r"(?<![\w.])\d+(?![\w.])", text)]
+        if not nums:
+            return [text + "\nmodel Extra__ Real q = %d; end Extra__;\n" % k for k in (1, 2, 3)]
+        m = rng.choice(nums)
+        v = int(m.group())
+        return [text[:m.start()] + str(v + k) + text[m.end():] for k in (0, 1 + rng.randrange(3), 5 + rng.randrange(3))]
+    return [text[:i] + x + text[i:] for x in ins]
+
+
+def _broken(text, rng):
+    """a syntactically broken variant"""
     k = rng.randrange(4)
     semis = [i for i, c in enumerate(text) if c == ";"]
     if k == 0 and semis:
         i = rng.choice(semis)
-        bad = text[:i] + text[i + 1:]
-    elif k == 1:
-        bad = text.rstrip().rstrip(";")[:-1] + " end;"
-    elif k == 2:
-        bad = text.replace("equation", "equation equation ==", 1) if "equation" in text else text + " model"
-    else:
-        bad = text + "\nmodel"
-    return dup, bad
+        return text[:i] + text[i + 1:]
+    if k == 1:
+        return text.rstrip().rstrip(";")[:-1] + " end;"
+    if k == 2:
+        return text.replace("equation", "equation equation ==", 1) if "equation" in text else text + " model"
+    return text + "\nmodel"
 
 
 _fresh = {}
@@ -93,15 +113,15 @@ def text_pool(rng, big=False):
                 bases.append(open(os.path.join(mdir, n), encoding="utf-8").read())
             except OSError:
                 pass
-    for _ in range(50):
+    for _ in range(80):
         base = rng.choice(bases)
-        dup, bad = _variants(base, rng)
-        dup2, bad2 = _variants(dup, rng)
-        cand = {"g1": base, "g2": dup, "g3": dup2, "b1": bad, "b2": bad2}
+        kind = rng.choice(NEAR_DUP_KINDS)
+        g = _near_dups(base, rng, kind)
+        cand = {"g1": g[0], "g2": g[1], "g3": g[2], "b1": _broken(g[0], rng), "b2": _broken(g[1], rng)}
         if len(set(cand.values())) < 5:
             continue
-        ok = all(not fresh(cand[g])[0] for g in ("g1", "g2", "g3")) and all(fresh(cand[b])[0] for b in ("b1", "b2"))
-        if ok and len({fresh(cand[g])[1] for g in ("g1", "g2", "g3")}) == 3:
+        ok = all(not fresh(cand[x])[0] for x in ("g1", "g2", "g3")) and all(fresh(cand[x])[0] for x in ("b1", "b2"))
+        if ok and len({fresh(cand[x])[1] for x in ("g1", "g2", "g3")}) == 3:
             return cand
     raise MachineryError("could not build a text pool")
 
@@ -231,8 +251,21 @@ class Adapter:
             c.close()
             self.faults.append("corruptlayout-%s-%s" % (act["tbl"], act["how"]))
         elif a == "corruptfile":
-            k = self.rng.randrange(3)
+            k = self.rng.randrange(4)
             data = open(self.dbpath, "rb").read()
+            if k == 3:
+                # page-valid damage: two records of the primary-key index point to each other's rows.  sqlite's
+                # integrity_check calls this corrupt; queries keep "working".  Only injected while this process has
+                # not (or no longer) initialised the database: a silently wrong but well-formed file met in the middle
+                # of a process is outside the fault model (the cache has no checksums), like a blob that unpickles to
+                # another tree.
+                desync = None if self.dbpath in getattr(self.P.parse, "initialized_dbs", set()) else self._index_desync(data)
+                if desync is not None:
+                    with open(self.dbpath, "wb") as f:
+                        f.write(desync)
+                    self.faults.append("corruptfile")
+                    return {}
+                k = self.rng.randrange(3)
             junk = [b"this is not a database " * 200,
                     bytes(self.rng.randrange(256) for _ in range(4096)),
                     data[:100] + bytes(self.rng.randrange(256) for _ in range(max(0, len(data) - 100)))][k]
@@ -245,6 +278,24 @@ class Adapter:
         else:
             raise MachineryError("unknown action %r" % (act,))
         return {}
+
+    def _index_desync(self, data):
+        try:
+            c = sqlite3.connect(self.dbpath)
+            rows = c.execute("SELECT rowid, txt_hash, pymoca_version FROM models WHERE rowid BETWEEN 2 AND 127 ORDER BY rowid").fetchall()
+            c.close()
+        except sqlite3.DatabaseError:
+            return None
+        if len(rows) < 2:
+            return None
+        (ra, ha, va), (rb, hb, vb) = rows[0], rows[1]
+        raw = bytearray(data)
+        for h, v, old, new in ((ha, va, ra, rb), (hb, vb, rb, ra)):
+            needle = h.encode() + v.encode() + bytes([old])
+            if raw.count(needle) != 1:
+                return None
+            raw[raw.index(needle) + len(needle) - 1] = new
+        return bytes(raw)
 
     # ---- observation of the real state ------------------------------------
     def bad_text_rows(self):
